@@ -157,7 +157,7 @@ func schemaCmd(args []string) int {
 	fs.Parse(args)
 	setKnown(*kn)
 	st := NewStats("schema", *seed)
-	st.Rule = "table definitions built from structures: 1-5 columns with names that need and do not need quoting (spaces, '-', '.', non-ASCII, embedded quotes, keywords), optional known/unknown type words, constraint words in any order (PRIMARY KEY, NOT NULL, UNIQUE, DEFAULT/CHECK/REFERENCES/COLLATE), table-level PRIMARY KEY(...) with one or several names, duplicate names (also differing only in case); one definition in six is given a storage that cannot be opened (s3_endpoint without s3_bucket, or the first storage request failing) and must be rejected like any other; options well-formed, malformed (text, 1e3, empty, out of range), negative, missing a value, given a value they must not have, duplicated, unknown, misspelt; each structure is rendered with random quoting style, keyword case and white space and run through the real CREATE VIRTUAL TABLE; compared with the Lean decision on the structure: accept/reject, declared column names/order/key/NOT NULL (PRAGMA table_info), parsed option values (GetTable); plus: a rejected definition leaves no table registered and no object written, NOT NULL and key uniqueness are enforced on an accepted one; each definition runs in a child process; non-trivial = not the plain valid definition; distinct = distinct structure"
+	st.Rule = "table definitions built from structures: 1-5 columns with names that need and do not need quoting (spaces, '-', '.', non-ASCII, embedded quotes, keywords), optional known/unknown type words, constraint words in any order (PRIMARY KEY, NOT NULL, UNIQUE, DEFAULT/CHECK/REFERENCES/COLLATE), table-level PRIMARY KEY(...) with one or several names, duplicate names (also differing only in case); one definition in ten has a malformed text (trailing comma, NOT NULL / PRIMARY KEY written as one word) and must be rejected; the declared type of every column must be the type word written (none where none was written); s3_prefix is given in numeric-looking and quoted spellings and must be used as written; one definition in six is given a storage that cannot be opened (s3_endpoint without s3_bucket, or the first storage request failing) and must be rejected like any other; options well-formed, malformed (text, 1e3, empty, out of range), negative, missing a value, given a value they must not have, duplicated, unknown, misspelt; each structure is rendered with random quoting style, keyword case and white space and run through the real CREATE VIRTUAL TABLE; compared with the Lean decision on the structure: accept/reject, declared column names/order/key/NOT NULL (PRAGMA table_info), parsed option values (GetTable); plus: a rejected definition leaves no table registered and no object written, NOT NULL and key uniqueness are enforced on an accepted one; each definition runs in a child process; non-trivial = not the plain valid definition; distinct = distinct structure"
 	isChild, from, to := childRange()
 	var e *Emitter
 	if !isChild {
@@ -316,6 +316,13 @@ func schemaCmd(args []string) int {
 				argv = append(argv, o.name)
 			}
 		}
+		// the prefix in several spellings; whatever is written (quotes removed) is the prefix used (F49)
+		pfxWant := gen.Pick(r, []string{"p", "p", "p", "007", "1e3", "2024.10", "0x10", "-5", "a b", "it''s"})
+		pfxArg := "'" + pfxWant + "'"
+		if !strings.ContainsAny(pfxWant, " '") && r.Bool() {
+			pfxArg = pfxWant
+		}
+		pfxWant = strings.ReplaceAll(pfxWant, "''", "'")
 		// sometimes the storage cannot be opened: the definition is then rejected after every argument was
 		// accepted — the late rejection must leave as little behind as an early one
 		storage := "ok"
@@ -339,10 +346,27 @@ func schemaCmd(args []string) int {
 			})
 			argv = append(argv, "s3_bucket='"+b+"'", "s3_endpoint='"+sqlh.Endpoint+"'", "s3_prefix='p'")
 		default:
-			argv = append(argv, "s3_bucket='"+b+"'", "s3_endpoint='"+sqlh.Endpoint+"'", "s3_prefix='p'")
+			argv = append(argv, "s3_bucket='"+b+"'", "s3_endpoint='"+sqlh.Endpoint+"'", "s3_prefix="+pfxArg)
 		}
 		st.Count("storage_" + storage)
 		rendered := renderItems(r, items)
+		// sometimes the text itself is malformed although the structure is fine: a trailing comma, or a
+		// two-word keyword written as one word (SQLite would read that as a type name) — to be rejected
+		textMut := ""
+		if mutation != "no columns argument" && r.Chance(1, 10) {
+			switch r.Intn(3) {
+			case 0:
+				rendered += gen.Pick(r, []string{",", " ,", ", "})
+				textMut = "trailing comma"
+			case 1:
+				rendered += gen.Pick(r, []string{", zz notnull", ", zz NotNull"})
+				textMut = "notnull as one word"
+			default:
+				rendered += gen.Pick(r, []string{", zz primarykey", ", primarykey(zz)"})
+				textMut = "primarykey as one word"
+			}
+			st.Count("text_" + textMut)
+		}
 		if mutation != "no columns argument" {
 			pos := r.Intn(len(argv) + 1)
 			colArg := "columns='" + strings.ReplaceAll(rendered, "'", "''") + "'"
@@ -356,6 +380,9 @@ func schemaCmd(args []string) int {
 		op := "schema create "
 		if storage != "ok" {
 			op = "schema create-nostorage "
+		}
+		if textMut != "" {
+			op = "schema create-malformed "
 		}
 		if mutation == "no columns argument" {
 			op += "0 0"
@@ -414,6 +441,29 @@ func schemaCmd(args []string) int {
 			}
 		} else {
 			st.Count("accepted")
+			if storage == "ok" {
+				if got := s3db.GetTable(tname).S3Options.Prefix; got != pfxWant {
+					fail(fmt.Sprintf("s3_prefix=%s opened the prefix %q", pfxArg, got))
+				}
+			}
+			// declared types: exactly the type word written for each column, none where none was written (F48)
+			if trows, terr := sqlh.Query(db, fmt.Sprintf(`select name, type from pragma_table_info('%s') order by cid`, tname)); terr == nil {
+				var want []string
+				for _, it := range items {
+					if it.col != nil {
+						want = append(want, strings.ToLower(it.col.typ))
+					}
+				}
+				for k, rw := range trows {
+					got := ""
+					if b, e := hexDecode(strings.TrimPrefix(rw[1], "T:")); e == nil {
+						got = strings.ToLower(string(b))
+					}
+					if k < len(want) && got != want[k] {
+						fail(fmt.Sprintf("column %d is declared with type %q, the definition says %q", k, got, want[k]))
+					}
+				}
+			}
 			// behaviour: key uniqueness and NOT NULL
 			vt := s3db.GetTable(tname)
 			if !vt.S3Options.ReadOnly {
